@@ -53,6 +53,29 @@ SelectMenu == {
   Sel(<<P(InE(FALSE, V, <<One, Lit(IntV(2))>>), "m"), P(InE(TRUE, K, <<Lit(A), Lit(B)>>), "")>>, NoE, FALSE, NoLimit, "none")
 }
 
+\* C03: functions, casts, CASE, EXTRACT, subscripts and nested expressions evaluated on each row
+Two == Lit(IntV(2))
+ArrVV == Call("array", <<V, Two>>)
+TsLit == Lit(TsV(<<2021, 3, 4, 5, 6, 7, 0>>))
+FunctionMenu == {
+  Sel(<<P(Call("length", <<K>>), "len"), P(Call("upper", <<K>>), "up"), P(Call("lower", <<Lit(TextV(<<65, 201>>))>>), "lo")>>, IsE(TRUE, K, Lit(Null)), FALSE, NoLimit, "none"),
+  Sel(<<P(Call("abs", <<V>>), ""), P(Call("least", <<V, One>>), "l"), P(Call("greatest", <<V, One>>), "g")>>, NoE, FALSE, NoLimit, "none"),
+  Sel(<<P(ArrVV, "a"), P(Call("array_length", <<ArrVV>>), "n"), P(Idx(ArrVV, V), "e"), P(Idx(ArrVV, Arith("+", V, One)), "e2")>>, IsE(TRUE, V, Lit(Null)), FALSE, NoLimit, "none"),
+  Sel(<<P(Call("array_cat", <<ArrVV, Call("array", <<One>>)>>), "c"), P(Call("array_append", <<ArrVV, V>>), "ap"), P(Call("array_prepend", <<V, ArrVV>>), "pp"),
+        P(Call("array_unique", <<Call("array", <<V, One, V>>)>>), "u")>>, IsE(TRUE, V, Lit(Null)), FALSE, NoLimit, "none"),
+  Sel(<<P(Cast(V, "text"), "t"), P(Cast(Cast(V, "text"), "int"), "i"), P(Cast(Lit(TextV(<<49, 46, 53>>)), "real"), "r")>>, NoE, FALSE, NoLimit, "none"),
+  Sel(<<P(Cast(K, "int"), "ki")>>, NoE, FALSE, NoLimit, "none"),                                                  \* 'a'::int is an error
+  Sel(<<P(CaseE(<<<<CmpE("=", K, Lit(A)), Lit(IntV(10))>>, <<CmpE(">", V, One), Lit(IntV(20))>>>>, Lit(Null)), "c")>>, NoE, FALSE, NoLimit, "none"),
+  Sel(<<P(Call("extract_year", <<TsLit>>), "y"), P(Call("extract_minute", <<TsLit>>), "mi"), P(CmpE("<", TsLit, Lit(TsV(<<2021, 3, 4, 5, 6, 8, 0>>))), "before")>>, NoE, FALSE, NoLimit, "none"),
+  Sel(<<P(Arith("-", Arith("*", Arith("+", V, One), Two), Arith("/", V, One)), "x")>>, BoolE("and", NotE(IsE(FALSE, V, Lit(Null))), CmpE("<=", V, Two)), FALSE, NoLimit, "none"),
+  Sel(<<P(CmpE("<", K, Lit(B)), "lt"), P(CmpE(">=", K, Lit(TextV(<<97, 97>>))), "ge"), P(NotE(CmpE("=", K, Lit(A))), "n"), P(BoolE("or", CmpE("=", V, One), IsE(FALSE, K, Lit(Null))), "o")>>, NoE, FALSE, NoLimit, "none"),
+  Sel(<<P(NegE(V), "neg"), P(Arith("+", V, Lit(Null)), "vn"), P(IsE(TRUE, Arith("*", V, Lit(Null)), Lit(Null)), "isn")>>, NoE, FALSE, NoLimit, "none"),
+  Sel(<<P(V, "")>>, InE(FALSE, K, <<Lit(A), Lit(Null)>>), FALSE, NoLimit, "none"),
+  Sel(<<P(V, "")>>, InE(TRUE, V, <<One, Two>>), FALSE, NoLimit, "none"),
+  Sel(<<P(Arith("+", K, One), "bad")>>, NoE, FALSE, NoLimit, "none"),                                               \* TEXT + INT: type mismatch
+  Sel(<<P(Call("length", <<V>>), "bad")>>, CmpE("=", K, Lit(B)), FALSE, NoLimit, "none")                            \* length(INT): error only on rows that pass WHERE
+}
+
 \* C08
 NegZeroOrZero == CaseE(<<<<CmpE("=", V, One), Lit(RealV(0, 1))>>>>, Lit(NZero))
 DistinctMenu == {
@@ -63,7 +86,9 @@ DistinctMenu == {
   Star(VPos, TRUE, NoLimit, "none"),
   Agg(<<CountStar>>, <<K>>, NoE, NoH, TRUE, NoLimit, "none"),
   Agg(<<CountStar, ItE("max", V, "hi")>>, <<K>>, NoE, HAgg(CountStar, ">=", IntV(1)), TRUE, NoLimit, "none"),
-  Agg(<<ItE("min", V, "lo")>>, <<K>>, NoE, NoH, TRUE, NoLimit, "none")
+  Agg(<<ItE("min", V, "lo")>>, <<K>>, NoE, NoH, TRUE, NoLimit, "none"),
+  Agg(<<CountStar>>, <<K>>, NoE, HAgg(MaxOfV, ">", IntV(1)), TRUE, NoLimit, "none"),
+  Agg(<<CountStar, ItE("min", V, "lo")>>, <<K>>, NoE, [h |-> "keynull", e |-> K, neg |-> TRUE], TRUE, NoLimit, "none")
 }
 
 \* C07
@@ -72,7 +97,10 @@ LimitMenu == { [s EXCEPT !.limit = n] : s \in {PlainKV,
                                                Sel(<<P(Lit(Null), "z")>>, NoE, FALSE, NoLimit, "none"),
                                                Sel(<<P(K, ""), P(V, "")>>, VPos, FALSE, NoLimit, "none"),
                                                Agg(<<KeyK, CountStar>>, <<K>>, NoE, NoH, FALSE, NoLimit, "none"),
-                                               Agg(<<CountStar>>, <<>>, NoE, NoH, FALSE, NoLimit, "none")}, n \in 0..3 }
+                                               Agg(<<CountStar>>, <<>>, NoE, NoH, FALSE, NoLimit, "none"),
+                                               Agg(<<KeyK, CountStar>>, <<K>>, NoE, HAgg(CountStar, ">=", IntV(2)), FALSE, NoLimit, "none"),
+                                               Agg(<<KeyK, SumV>>, <<K>>, NoE, [h |-> "keynull", e |-> K, neg |-> TRUE], FALSE, NoLimit, "none"),
+                                               Agg(<<CountStar>>, <<K>>, NoE, NoH, TRUE, NoLimit, "none")}, n \in 0..3 }
 LimitJoinMenu == { [s EXCEPT !.limit = n] : s \in {Star(NoE, FALSE, NoLimit, "inner"), Star(NoE, FALSE, NoLimit, "outer"),
                                                    Sel(<<P(W, "")>>, NoE, TRUE, NoLimit, "inner")}, n \in 0..4 }
 
@@ -101,6 +129,8 @@ AggMenu ==
         Agg(<<KeyK, MaxOfV>>, <<K>>, NoE, [h |-> "or", l |-> [h |-> "key", e |-> K, f |-> "=", c |-> A], r |-> HAgg(MinOfV, "<", IntV(1))], FALSE, NoLimit, "none"),
         Agg(<<KeyK, [SumV EXCEPT !.wrap = Arith("*", Col("$value"), Lit(IntV(2)))]>>, <<K>>, NoE, NoH, FALSE, NoLimit, "none"),
         Agg(<<[CountStar EXCEPT !.wrap = Arith("+", Col("$value"), One)], ItE("key", V, "v")>>, <<V>>, NoE, NoH, FALSE, NoLimit, "none"),
+        Agg(<<KeyK, CountStar, [CountV EXCEPT !.wrap = Arith("+", Col("$value"), One)],
+              [ItC("count_distinct", "v", "d") EXCEPT !.wrap = Arith("-", Lit(IntV(100)), Col("$value"))], [MinOfV EXCEPT !.wrap = Arith("*", Col("$value"), Lit(IntV(2)))]>>, <<K>>, NoE, NoH, FALSE, NoLimit, "none"),
         Agg(<<KeyK, ItE("key", V, "v"), CountStar>>, <<K, V>>, NoE, NoH, FALSE, NoLimit, "none"),
         Agg(<<ItE("key", V, "v"), CountStar>>, <<K>>, NoE, NoH, FALSE, NoLimit, "none")}       \* key expression not in GROUP BY: error
 
@@ -173,16 +203,16 @@ LinesPair == {KV(A, IntV(1)), KV(A, IntV(2))}
 Lines4 == {KV(A, IntV(1)), KV(A, IntV(2)), KV(B, IntV(1)), KV(Null, IntV(1)), KV(A, Null), KV(Null, Null), Garbage}
 LinesAgg == {KV(A, IntV(1)), KV(A, IntV(2)), KV(B, IntV(-1)), KV(B, Null), KV(Null, IntV(0)), KV(A, Null), Near}
 LinesNoise == {KV(A, IntV(1)), KV(B, IntV(2)), KV(A, Null), KV(Null, Null), Garbage, Empty, Near}
-LongJoin == [i \in 1..12 |-> IF i % 2 = 0 THEN KV(A, IntV(i)) ELSE KV(B, IntV(i))]
+LongJoin == [i \in 1..34 |-> IF i % 2 = 0 THEN KV(A, IntV(i)) ELSE KV(B, IntV(i))]
 JoinSetsLong == {LongJoin}
 Lines3 == {KV(A, IntV(1)), KV(B, IntV(2)), KV(Null, IntV(0)), KV(A, Null), Garbage}
 LinesJ == {KV(A, IntV(1)), KV(B, IntV(2)), KV(Null, IntV(1))}
-JoinSets == {<<>>, <<KV(A, IntV(5))>>, <<KV(A, IntV(5)), KV(A, IntV(0)), KV(Null, IntV(9))>>, <<KV(B, IntV(1)), Garbage, KV(A, IntV(3))>>}
+JoinSets == {<<>>, <<KV(A, IntV(5))>>, <<KV(A, IntV(0)), KV(A, IntV(5))>>, <<KV(B, IntV(5)), KV(A, IntV(5)), KV(A, IntV(6))>>, <<KV(A, IntV(5)), KV(A, IntV(0)), KV(Null, IntV(9))>>, <<KV(B, IntV(1)), Garbage, KV(A, IntV(3))>>}
 NoIntr == {[at |-> "none", n |-> 0]}
 LineIntr == {[at |-> "line", n |-> n] : n \in 0..4}
 PrintIntr == {[at |-> "print", n |-> n] : n \in 1..3}
 
-JoinIntr == {[at |-> "join", n |-> n] : n \in {0, 1, 2, 10, 11}}
+JoinIntr == {[at |-> "join", n |-> n] : n \in {0, 1, 9, 10, 11, 15, 20, 30, 33}} \cup NoIntr
 AllIntr == NoIntr \cup LineIntr \cup PrintIntr
 
 \* which open deviations made this behaviour differ from the Ideal meaning (batch, uninterrupted)
@@ -195,6 +225,7 @@ Emit ==
     PrintT(<<"REPLAY", ToJson([tdef |-> tdef, q |-> q, files |-> files, jlines |-> jlines, mode |-> mode, intr |-> intr,
                                 cols |-> ColNames(q), printed |-> printed, status |-> status, consumed |-> consumed,
                                 steps |-> steps,
+                                jcalls |-> IF q.join = "none" THEN 0 ELSE IF ji < Len(jlines) THEN ji + 1 ELSE Len(jlines),
                                 fired |-> IF Deviates THEN Dev ELSE {},
                                 ideal |-> IF Deviates THEN IdealOut ELSE Out(<<>>, "same")])>>)
 =============================================================================
